@@ -257,6 +257,14 @@ def _nan_inside(tree, binds):
         if c[0] == "L":
             return any(has_nan(x) for x in c[1])
         return c[0] == "X"          # complex number
+
+    def has_div0(c):
+        if c[0] == "R":
+            return math.isinf(c[1])
+        if c[0] == "L":
+            return any(has_div0(x) for x in c[1])
+        return c[0] == "U"
+    div0 = False
     for node in E.postorder(tree):
         if node[0] in ("var", "lit"):
             continue
@@ -264,7 +272,9 @@ def _nan_inside(tree, binds):
             s, _ = _eval(backend, node, binds, True)
             if s[0] == "ok" and has_nan(s[1]):
                 return True
-    return False
+            if s[0] == "ok" and has_div0(s[1]):
+                div0 = True
+    return "div0" if div0 else False
 
 
 def run_case(ctx, case):
@@ -295,7 +305,13 @@ def run_case(ctx, case):
         return res
     if d.startswith("raises-on") and not conly:
         return res            # "whenever both return": outside the statement
-    if _nan_inside(tree, binds):
+    inside = _nan_inside(tree, binds)
+    if inside == "div0":
+        # a division by zero happened inside the program: what the rest of it makes of inf / :undefined is the recorded %-by-zero mechanism
+        res["counters"]["divergences_examined"] = 1
+        res["violations"].append({"sig": "division-by-zero-inside|%s" % d, "what": "numpy %s vs torch %s for %s with %s" % (show["numpy"], show["torch"], prog, show["binds"]), "detail": show})
+        return res
+    if inside:
         # a not-a-number arose inside the program (fractional power of a negative number, 0%0 ...): what floor, comparison or
         # integer conversion make of it is not part of "numeric programs mean the same"
         res["counters"]["divergences_with_nan_intermediate"] = 1
